@@ -227,6 +227,27 @@ fn suffixed_header<B: crate::backend::Backend, P: crate::prims::Prims>(rep: &mut
     }
     r::set_suffix("");
     rep.count(&format!("{}.suffixed-header-cases", B::NAME));
+    // a suffix that is not ASCII: the header piece's length prefix counts bytes, not characters
+    let sfx = <RawU as paseto_core::encodings::Payload>::SUFFIX;
+    let hdr = format!("v{}{sfx}.local.", B::VER);
+    let d = || json!({"backend": B::NAME, "header": hdr, "message_len": msg.len(), "footer_len": footer.len(), "assertion_len": aad.len()});
+    r::set_suffix(sfx);
+    let want = join_token(&hdr, &r::local_seal::<P>(B::VER, key, nonce, msg, footer, aad), footer);
+    if !matches!(guard(|| kl.seal_nonce_t(nonce, RawU(msg.to_vec()), footer.to_vec(), aad)), Ok(Ok(t)) if t == want) {
+        rep.violation(&format!("C15|{}|local|header-piece-differs:non-ascii-suffix", B::NAME), d());
+    }
+    if !matches!(guard(|| kl.open_t::<RawU, Vec<u8>>(&want, aad)), Ok(Ok((m, _, _))) if m.0 == msg) {
+        rep.violation(&format!("C15|{}|local|header-piece-differs:non-ascii-suffix:open", B::NAME), d());
+    }
+    if B::VER != 1 {
+        if let Ok(Ok(t)) = guard(|| kp.seal_t(RawU(msg.to_vec()), footer.to_vec(), aad)) {
+            let (_, body, f) = split_token(&t);
+            if r::public_verify::<P>(B::VER, pk_raw, &body, &f, aad).as_deref() != Some(msg) {
+                rep.violation(&format!("C15|{}|public|header-piece-differs:non-ascii-suffix", B::NAME), d());
+            }
+        }
+    }
+    r::set_suffix("");
 }
 
 
